@@ -16,6 +16,8 @@ import sys
 
 CRATES = ["poulpy-hal", "poulpy-cpu-ref", "poulpy-cpu-avx", "poulpy-core", "poulpy-ckks", "poulpy-bin-fhe"]
 FN = re.compile(r"\bfn\s+([A-Za-z0-9_]*tmp_bytes[A-Za-z0-9_]*)\s*[<(]")
+# macro-generated methods: `fn [<$method_name _tmp_bytes>]<..>(` (paste!), reported as `$method_name_tmp_bytes`
+FN_MACRO = re.compile(r"\bfn\s+\[<\s*\$(\w+)\s+(_[A-Za-z0-9_]*tmp_bytes)\s*>\]")
 
 # free functions of poulpy-cpu-ref's `reference` modules -> the API query they implement
 ALIAS = {
@@ -53,6 +55,8 @@ def scan(repo):
                 for m in FN.finditer(txt):
                     c = canon(m.group(1))
                     found.setdefault(c, set()).add(crate)
+                for m in FN_MACRO.finditer(txt):
+                    found.setdefault("$" + m.group(1) + m.group(2), set()).add(crate)
     return found
 
 
